@@ -40,6 +40,12 @@ package ecs
 //@   ensures p != nil && prefixValid(scope) && result != scope ==> prefixBits(result) <= prefixBits(scope) && (prefixValid(source) ==> prefixBits(result) <= prefixBits(source))
 //@   ensures p != nil && prefixValid(scope) && result != scope && addrIs4(prefixAddr(scope)) ==> prefixBits(result) <= int(p.MinScopeV4)
 //@   ensures p != nil && prefixValid(scope) && result != scope && addrIs6(prefixAddr(scope)) ==> prefixBits(result) <= int(p.MinScopeV6)
+//@   # C03 / C19, KNOWN FINDING (recorded, not repaired - see /verif/known_findings.json): "for answers an authority scoped to
+//@   # a client subnet only clients inside that scope": the key is never BROADER than what the authority declared for the
+//@   # subnet that was sent - at least min(SCOPE, SOURCE) bits. The configured floor (min_scope_v4/v6) widens it beyond
+//@   # that on purpose, to bound the number of cache entries; with a floor shorter than the forwarded source an answer
+//@   # scoped to one /24 is served to the whole /16
+//@   ensures p != nil && prefixValid(scope) && prefixValid(source) ==> prefixBits(result) >= prefixBits(scope) || prefixBits(result) >= prefixBits(source)
 //@
 //@ # ---- C19: the scope read off a response: none for SCOPE=0 ("global"), a malformed address, a family that does not
 //@ # match the address, or an impossible prefix length; otherwise address/SCOPE of the FIRST subnet option
